@@ -377,7 +377,7 @@ fn corpus(rng: &mut Rng, cases: &mut Cases) {
     // open: count-null-group
     let t = table(vec![("id", ColType::Id, ints(&[0, 1, 2, 3])), ("k0", ColType::Int("small"), ints(&[1, 1, 2, 3])), ("v0", ColType::Int("small"), opt_ints(&[Some(10), None, None, Some(7)]))]);
     run_table(rng, cases, "corpus:count-null-group", &t, &fixed_realisation(vec![0, 4], 0), &[(vec![key(1), Sel::Agg('c', 2)], None), (vec![key(1), Sel::Agg('a', 2)], None), (vec![key(1), Sel::Agg('s', 2), Sel::Agg('c', 2), Sel::Count1], None)]);
-    // open: groupby-absent-column
+    // open: groupby-absent-column (sub-shape W1: COUNT(c) of an input without data in a partition that keeps rows)
     let t = table(vec![("id", ColType::Id, ints(&[0, 1, 2, 3, 4])), ("k0", ColType::Int("small"), ints(&[1, 2, 1, 3, 4])), ("v0", ColType::Int("small"), opt_ints(&[None, None, None, Some(5), Some(6)]))]);
     run_table(rng, cases, "corpus:groupby-absent-column", &t, &fixed_realisation(vec![0, 3, 5], 0), &[(vec![key(1), Sel::Agg('c', 2)], None), (vec![key(1), Sel::Agg('s', 2)], None), (vec![key(1), Sel::Count1, Sel::Agg('s', 2), Sel::Agg('c', 2)], None)]);
     // open: groupby-nullable-float-key
@@ -449,8 +449,61 @@ fn api_exhaustive(rng: &mut Rng, cases: &mut Cases) {
     } }
 }
 
+/// Directed: a column of the select list WITHOUT DATA in one of 2..3 partitions, in the sub-shapes the engine answers
+/// correctly today (they are judged strictly by the specification; only the wrong sub-shapes stay behind the
+/// classifier of `groupby-absent-column`): a single integer / string grouping column absent in one partition, two
+/// integer grouping columns with one absent (bit-packed, zero-width field), an aggregate input absent — each with
+/// every aggregate and with no WHERE / a WHERE that keeps part of that partition / a WHERE that removes it entirely.
+fn absent_directed(rng: &mut Rng, cases: &mut Cases) {
+    let cmp = |op: &'static str, col: usize, k: i64| Ex::Cmp(op, Box::new(Ex::Col(col)), Box::new(Ex::Lit(Cell::Int(k))));
+    for np in 2..=3usize {
+        for hole in 0..np {
+            for shape in ["key:int", "key:str", "key:wide", "key2", "agg"] {
+                // rows per partition 2..4; columns: id, f (0 inside the hole partition, 1 elsewhere), k0, k1, v0, v1 (NULLable)
+                let sizes: Vec<usize> = (0..np).map(|_| 2 + rng.below(3) as usize).collect();
+                let mut bounds = vec![0usize];
+                for sz in &sizes { bounds.push(bounds.last().unwrap() + sz); }
+                let n = *bounds.last().unwrap();
+                let (lo, hi) = (bounds[hole], bounds[hole + 1]);
+                let in_hole = |i: usize| i >= lo && i < hi;
+                let pool: Vec<&str> = (0..3).map(|_| *rng.pick(STR_POOL)).collect();
+                let base = *rng.pick(&[0i64, 1, -3, 250, 1000]);
+                let (k0t, mut k0): (ColType, Vec<Cell>) = match shape {
+                    "key:str" => (ColType::Str("lowcard"), (0..n).map(|_| Cell::Str(rng.pick(&pool).to_string())).collect()),
+                    "key:wide" => (ColType::Int("wide"), (0..n).map(|_| Cell::Int(base + rng.range(0, 3) * 100_000)).collect()),
+                    _ => (ColType::Int("small"), (0..n).map(|_| Cell::Int(base + rng.range(0, 3))).collect()),
+                };
+                let k1: Vec<Cell> = (0..n).map(|_| Cell::Int(rng.range(0, 2))).collect();
+                let mut v0: Vec<Cell> = (0..n).map(|_| Cell::Int(rng.range(-9, 30))).collect();
+                let v1: Vec<Cell> = (0..n).map(|i| if i % 3 == 1 { Cell::Null } else { Cell::Int(rng.range(-9, 9)) }).collect();
+                // the hole: the column is entirely NULL there and therefore omitted from that batch
+                for i in lo..hi { if shape == "agg" { v0[i] = Cell::Null; } else { k0[i] = Cell::Null; } }
+                let t = LTable { n, names: ["id", "f", "k0", "k1", "v0", "v1"].iter().map(|s| s.to_string()).collect(),
+                    types: vec![ColType::Id, ColType::Int("small"), k0t, ColType::Int("small"), ColType::Int("small"), ColType::Int("small")],
+                    cols: vec![(0..n as i64).map(Cell::Int).collect(), (0..n).map(|i| Cell::Int(if in_hole(i) { 0 } else { 1 })).collect(), k0, k1, v0, v1] };
+                let keys: Vec<Sel> = if shape == "key2" { if rng.chance(1, 2) { vec![Sel::Key(2), Sel::Key(3)] } else { vec![Sel::Key(3), Sel::Key(2)] } } else { vec![Sel::Key(2)] };
+                // COUNT(c) / AVG(c) of the absent input is the wrong sub-shape W1: not part of the directed correct region
+                let agg_lists: Vec<Vec<Sel>> = if shape == "agg" {
+                    vec![vec![Sel::Agg('s', 4)], vec![Sel::Agg('m', 4)], vec![Sel::Agg('M', 4)], vec![Sel::Count1, Sel::Agg('s', 4)], vec![Sel::Agg('M', 4), Sel::Agg('s', 5)]]
+                } else {
+                    vec![vec![Sel::Count1], vec![Sel::Agg('c', 4)], vec![Sel::Agg('s', 4)], vec![Sel::Agg('m', 4)], vec![Sel::Agg('M', 4)], vec![Sel::Agg('a', 4)],
+                         vec![Sel::Count1, Sel::Agg('s', 4)], vec![Sel::Agg('c', 4), Sel::Agg('M', 4), Sel::Count1], vec![Sel::Agg('s', 5), Sel::Count1]]
+                };
+                let wheres: Vec<(&str, Option<Ex>)> = vec![("w0", None), ("wpart", Some(cmp("<>", 0, lo as i64))), ("wpart2", Some(cmp(if hole == 0 { ">" } else { "<" }, 0, if hole == 0 { lo as i64 } else { hi as i64 - 1 }))), ("wfull", Some(cmp(">", 1, 0)))];
+                let mut r = fixed_realisation(bounds.clone(), rng.next());
+                r.threads = *rng.pick(&[1usize, 2]);
+                for (wn, w) in wheres {
+                    let queries: Vec<(Vec<Sel>, Option<Ex>)> = agg_lists.iter().map(|a| { let mut s = keys.clone(); s.extend(a.iter().cloned()); (s, w.clone()) }).collect();
+                    run_table(rng, cases, &format!("api:absent-directed:{}:hole{}of{}:{}", shape, hole, np, wn), &t, &r, &queries);
+                }
+            }
+        }
+    }
+}
+
 fn api_stream(rng: &mut Rng, cases: &mut Cases, thorough: bool) {
     corpus(rng, cases);
+    absent_directed(rng, cases);
     if thorough { api_exhaustive(rng, cases); }
     let (tables, per_table) = if thorough { (260, 10) } else { (70, 8) };
     for ti in 0..tables {
